@@ -409,7 +409,7 @@ pub fn tree_events(t: &Tables, cmds: &[String], dir: &str, nshards: usize, depth
         // improvement or one line per iteration)
         let sends: Vec<Value> = full.sends.iter().filter(|i| i["q"].as_u64().unwrap_or(0) < kd).cloned().collect();
         let nn = tree["nodes"].as_array().unwrap().len();
-        (Some(json!({"ev": "stree", "cmd": cmd, "root": t.state(&sc.board), "D": dd, "tree": tree,
+        (Some(json!({"ev": "stree", "cmd": cmd, "root": t.state(&sc.board), "root_fen": to_fen(&sc.board, 0, 1), "D": dd, "tree": tree,
                      "infos": infos, "sends": sends, "panic": full.panic})),
          json!({"cmd": cmd, "D": dd, "nodes": nn, "keys": nkeys, "history": sc.table.table.len() > 1}))
     });
@@ -511,6 +511,56 @@ fn repetition_cycle(t: &Tables, b0: &BoardState, rng: &mut StdRng) -> Option<Vec
                         // two and a half cycles: 3 plies = second occurrence on offer, 7 = third, 11 = fourth
                         return Some(vec![t1.clone(), t2.clone(), rev(&t1), rev(&t2), t1.clone(), t2.clone(), rev(&t1), rev(&t2), t1.clone(), t2.clone(), rev(&t1)]);
                     }
+                }
+            }
+        }
+    }
+    None
+}
+
+// a cycle in which the move INTO the twice-seen position is the favourite of the side that is offered it: X a-b (any
+// reversible move), Y c-d = what Y's own search plays in that position without a history, X b-a, Y d-c, twice, then X a-b
+// once more: Y is to move with its favourite leading to a position that has occurred twice.  A search that values the
+// repetition by searching on (instead of as a draw) reports the favourite's ordinary score.
+fn greedy_cycle(t: &Tables, b0: &BoardState, rng: &mut StdRng) -> Option<Vec<String>> {
+    let rev = |s: &str| format!("{}{}", &s[2..4], &s[0..2]);
+    let men = |b: &BoardState| b.board.iter().flatten().filter(|s| matches!(s, Square::Full(_))).count();
+    let is_pawn_move = |b: &BoardState, m: &BoardState| match m.last_move {
+        Some((f, _)) => matches!(b.board[f.0][f.1], Square::Full(p) if p.kind == PieceKind::Pawn),
+        None => true,
+    };
+    let mut m1s = generate_moves(b0, MoveGenerationMode::AllMoves, &t.hasher);
+    for i in (1..m1s.len()).rev() {
+        let j = rng.gen_range(0..=i);
+        m1s.swap(i, j);
+    }
+    for p1 in m1s.iter().take(6) {
+        let t1 = printed_move(p1);
+        if t1.len() != 4 || men(p1) != men(b0) || is_pawn_move(b0, p1) {
+            continue;
+        }
+        let fav = run_search(t, p1, &DrawTable::new(), 4000);
+        let t2 = match fav.sends.last() {
+            Some(x) => x["txt"].as_str().unwrap_or("").to_string(),
+            None => continue,
+        };
+        if fav.panic || t2.len() != 4 {
+            continue;
+        }
+        let m2s = generate_moves(p1, MoveGenerationMode::AllMoves, &t.hasher);
+        let p2 = match m2s.iter().find(|m| printed_move(m) == t2) {
+            Some(p) => p,
+            None => continue,
+        };
+        if men(p2) != men(p1) || is_pawn_move(p1, p2) {
+            continue;
+        }
+        let m3s = generate_moves(p2, MoveGenerationMode::AllMoves, &t.hasher);
+        if let Some(p3) = m3s.iter().find(|m| printed_move(m) == rev(&t1)) {
+            let m4s = generate_moves(p3, MoveGenerationMode::AllMoves, &t.hasher);
+            if let Some(p4) = m4s.iter().find(|m| printed_move(m) == rev(&t2)) {
+                if t.scratch_key(p4) == t.scratch_key(b0) && p4.board == b0.board {
+                    return Some(vec![t1.clone(), t2.clone(), rev(&t1), rev(&t2), t1.clone(), t2.clone(), rev(&t1), rev(&t2), t1.clone()]);
                 }
             }
         }
@@ -925,8 +975,17 @@ pub fn scenarios(t: &Tables, seeds: &[String], seed: u64, n_small: usize, n_mate
         }
         let repeater_white = b0.to_move == PieceColor::Black;
         let repeater_ahead = if repeater_white { bal > 0 } else { bal < 0 };
-        if repeater_ahead && rng.gen_bool(0.7) {
-            continue;
+        if repeater_ahead {
+            // the side that is offered the repetition is ahead: the interesting case is the one in which the move into the
+            // twice-seen position is its favourite
+            if let Some(cyc) = greedy_cycle(t, &b0, &mut rng) {
+                out.push(json!({"tag": "rep", "cmd": format!("position fen {} moves {}", to_fen(&b0, 0, 1), cyc.join(" "))}));
+                count += 1;
+                continue;
+            }
+            if rng.gen_bool(0.7) {
+                continue;
+            }
         }
         if let Some(cyc) = repetition_cycle(t, &b0, &mut rng) {
             // optionally an irreversible prefix is already part of b0's history: not needed, the record is rebuilt from the command
